@@ -97,6 +97,9 @@ pub(crate) enum Token<'a> {
 
     /// Unknown token, not expected by the lexer, e.g. "№"
     Illegal,
+
+    /// End of input. Never produced by the tokenizer itself, but used by the parser once the tokenizer is exhausted.
+    Eof,
 }
 
 /// Peekable iterator over a char sequence.
@@ -227,7 +230,10 @@ impl<'a> Iterator for Tokenizer<'a> {
                 self.skip_while(|c, esc| c != '"' || esc);
 
                 // skip closing "
-                self.bump()?;
+                // if there is none, the string literal is unterminated
+                if self.bump().is_none() {
+                    return Some(Illegal);
+                }
 
                 // this reads the string including escape characters
                 String(self.read_str(start + 1, self.offset() - 1))
